@@ -6,6 +6,10 @@ import subprocess
 import vlib
 import wildrun
 
+# Symbolising a backtrace of the 50 MB hooks-on binary costs seconds per panic; servers inherit
+# this process's environment.
+os.environ["RUST_BACKTRACE"] = "0"
+
 _DIRS = {}
 
 
